@@ -1,10 +1,18 @@
 // Wrapper TU: catalogue entry arithmetic, sector walk, volume window.
 #include "prelude.h"
-#include "/repo/dfs/dfs_catalog.cc"
-#include "/repo/dfs/dfs_volume.cc"
-#include "/repo/dfs/img_fileio.cc"
-#include "/repo/dfs/exceptions.cc"
+namespace DFS { bool verbose = false; }
+#include "/repo/dfs/geometry.cc"
 #include "/repo/dfs/stringutil.cc"
+#include "/repo/dfs/exceptions.cc"
+#include "/repo/dfs/driveselector.cc"
+#include "/repo/dfs/fsp.cc"
+#include "/repo/dfs/dfs_unused.cc"
+#include "/repo/dfs/dfs_catalog.cc"
+#include "/repo/dfs/opus_cat.cc"
+#include "/repo/dfs/dfs_volume.cc"
+#include "/repo/dfs/dfs_filesystem.cc"
+#include "/repo/dfs/img_fileio.cc"
+#include "/repo/dfs/storage.cc"
 
 using DFS::byte;
 
